@@ -23,7 +23,8 @@ sample image read at the sample keypoints returns the label coordinates; exact s
 bottom/right padding.
 
 Part `cropsize`: `find_instance_crop_size` contract (docstring): multiple of `maximum_stride`,
->= `min_crop_size`, >= largest instance extent * input_scaling + padding, labels untouched.
+>= `min_crop_size`, >= largest instance extent * input_scaling + padding, labels untouched; when
+`min_crop_size` is a positive multiple of the stride it is the user-set size and is returned as is.
 """
 
 import math
@@ -40,8 +41,8 @@ RULE = (
     "functional part: a case is (class label drawn first from operation x {identity, scale, pad, crop-interior, "
     "crop-at-border, affine, chain}, image H x W in 24..240 with aspect up to 4:1, 1 or 3 channels, keypoints incl. "
     "NaN / border points, max_hw, scale, stride, crop size + centroid, augmentation kwargs, torch seed), one runner part per "
-    "operation; dataset part: one runner part per (dataset class x augmentation mode), the geometry class {identity, pad-stride, "
-    "sizematch-pad/up/down, scale-down/up, sizematch+scale} drawn first, then a label spec with 1-2 frames of 1-4 instances "
+    "operation; dataset part: one runner part per (dataset class x augmentation mode), the geometry class (size matching in "
+    "{none, pad, up, down, mixed} x scale in {1, down, up} x sizes that need stride padding or not) drawn first, then a label spec with 1-2 frames of 1-4 instances "
     "(compact animals incl. at the frame border for the crop datasets), max_hw / scale / max_stride / crop_hw (square and "
     "non-square) / anchor / np_chunks / RGB or three grayscale videos, torch seed; cropsize part: (instances, "
     "padding, stride, scaling, min_crop_size class).  non-trivial = the geometric transform is not the identity AND at "
@@ -49,7 +50,7 @@ RULE = (
     "move everything out of frame: were eligible for read-back; the judged= classes count the actual read-backs; a case that "
     "exposes a violation always counts; intensity-only cases, where "
     "nothing can be read back: an intensity operation has probability 1 and at least two finite keypoints were compared bit for bit; cropsize: "
-    "the largest instance, not min_crop_size, determines the answer or min_crop_size is not a multiple of the stride)"
+    "min_crop_size is None, 0 or not a multiple of the stride, so that the size has to be computed from the instances)"
 )
 ASSUMPTIONS = [
     "tolerance per axis = 0.25 output px + for every resize step (|s - r| * position + 0.5 * |1 - r|) output px of that step, "
@@ -73,6 +74,9 @@ ASSUMPTIONS = [
     "CenteredInstanceDataset 'centroid' is the crop centre by construction and is not moved by augmentation: judged only without geometric augmentation",
     "resizer output size: floor or ceil of H*scale accepted (the statement only fixes max_hw, stride multiples and crop size)",
     "find_instance_crop_size: minimality of the returned size is not asserted (not documented)",
+    "find_instance_crop_size with min_crop_size > 0 and min_crop_size % maximum_stride == 0: the user-set size takes precedence "
+    "(docstring 'The crop size set by the user', SLEAP heritage) - only multiple-of-stride, >= min_crop_size and == min_crop_size "
+    "are asserted there, NOT that it covers the largest instance (class cropsize:user-set-size-precedence in class_counts)",
 ]
 
 IMG_NORM = 256.0  # functional float images: value = coordinate / 256 (exact in float32, inside [0,1])
@@ -802,7 +806,7 @@ def eval_dataset(case):
 
     res = Result()
     kind, cfg, mode = case["kind"], case["cfg"], case["aug_mode"]
-    res.cls(case["cls"], f"ds={kind}|aug={mode}", f"ds={kind}|geom={case['geom']}", "gray-3-videos" if case["gray"] else "rgb", f"np_chunks={cfg['np_chunks']}")
+    res.cls(f"ds={kind}|aug={mode}", f"ds={kind}|{case['geom'].split(',')[0]}", f"ds={kind}|{case['geom'].split(',')[1]}", f"aug={mode}|{case['geom']}", "gray-3-videos" if case["gray"] else "rgb", f"np_chunks={cfg['np_chunks']}")
     h, w = case["h"], case["w"]
     frames = case["frames"]
     n_planes = 3 if case["gray"] else 1
@@ -1013,10 +1017,6 @@ def eval_dataset(case):
         shutil.rmtree(d, ignore_errors=True)
 
 
-DS_GEOMS = ["identity", "pad-stride", "sizematch-pad", "sizematch-up", "sizematch-down", "scale-down", "scale-up", "sizematch+scale"]
-DS_GEOMS_W = DS_GEOMS + ["sizematch-down", "sizematch-up", "sizematch+scale", "scale-down"]
-
-
 def strategy_dataset(kind_fixed, mode_fixed):
     from hypothesis import strategies as st
 
@@ -1026,7 +1026,12 @@ def strategy_dataset(kind_fixed, mode_fixed):
         # same seed + same strategy shape = same draws in every part: shift the stream per (class, mode)
         for _ in range(DATASETS.index(kind) * 4 + list(DS_BUDGET).index(mode)):
             draw(st.integers(0, 3))
-        geom = draw(st.sampled_from(DS_GEOMS_W))
+        # two short independent axes (5 x 3) instead of one long list: each marginal class gets a fair share of a
+        # 45-example part; odd sizes (so that stride padding really pads) are a third, independent axis
+        sm_cls = draw(st.sampled_from(["none", "pad", "up", "down", "mixed"]))
+        sc_cls = draw(st.sampled_from(["1", "down", "up"]))
+        odd_size = draw(st.booleans())
+        geom = f"sizematch={sm_cls},scale={sc_cls}"
         gray = draw(st.integers(0, 3)) == 0
         affine = mode in ("geo", "both")
         if affine:
@@ -1035,27 +1040,21 @@ def strategy_dataset(kind_fixed, mode_fixed):
         else:
             h = draw(st.sampled_from([48, 64, 80, 96, 128, 200, 256]))
             w = draw(st.sampled_from([x for x in [48, 64, 80, 96, 128, 160, 256] if 0.25 <= x / h <= 4.0]))
-        if geom == "pad-stride":
+        if odd_size:
             h, w = h + draw(st.sampled_from([2, 4, 10])), w + draw(st.sampled_from([0, 6, 12]))
             h, w = min(h, 256), min(w, 256)
         max_hw, scale = [None, None], 1.0
-        if geom == "sizematch-pad":
-            dd = draw(st.integers(1, 40))
-            max_hw = draw(st.sampled_from([[h + dd, w], [h, w + dd]]))
-        elif geom in ("sizematch-up", "sizematch-down", "sizematch+scale"):
-            sub = {"sizematch-up": "up", "sizematch-down": "down"}.get(geom) or draw(st.sampled_from(["up", "down", "mixed", "pad"]))
-            max_hw = _sizematch_params(draw, st, h, w, sub)
+        if sm_cls != "none":
+            max_hw = _sizematch_params(draw, st, h, w, sm_cls)
             if affine:  # keep the canvas within aspect 2:1 (kornia convention error bound)
                 mh0 = max_hw[0] or h
                 mw0 = max_hw[1] or w
                 if not (0.5 <= mw0 / mh0 <= 2.0):
                     max_hw = [mh0, mw0] = [int(round(h * 0.75)), int(round(w * 0.75)) + 5]
-        if geom == "scale-down":
+        if sc_cls == "down":
             scale = draw(st.sampled_from([0.5, 0.75, 0.25 if min(h, w) >= 96 else 0.5, 0.6]))
-        elif geom == "scale-up":
+        elif sc_cls == "up":
             scale = draw(st.sampled_from([1.25, 1.5, 2.0, 1.3]))
-        elif geom == "sizematch+scale":
-            scale = draw(st.sampled_from([0.5, 0.75, 1.5, 2.0]))
         mh = max_hw[0] if max_hw[0] is not None else h
         mw = max_hw[1] if max_hw[1] is not None else w
         eff = 1.0 if (mh, mw) == (h, w) else min(mh / h, mw / w)
@@ -1157,11 +1156,17 @@ def eval_cropsize(case):
         res.fail("cropsize:not-multiple-of-stride", desc)
     if out < mcs:
         res.fail("cropsize:below-min-crop-size", desc)
+    user_set = mcs > 0 and mcs % case["stride"] == 0
+    if user_set:
+        # documented precedence ("min_crop_size: The crop size set by the user"): a user-set size that is a multiple of
+        # the stride is used as is; covering the instances is NOT asserted in this class (coordinator disposition)
+        res.cls("cropsize:user-set-size-precedence")
+        if out != mcs:
+            res.fail("cropsize:user-set-size-not-used", desc)
     # float slack: extent computed in float64 from float64 labels, 1e-6 relative
-    if out < need - 1e-6 * max(1.0, need):
-        sub = "min-crop-size-multiple-of-stride" if (mcs > 0 and mcs % case["stride"] == 0) else "other"
-        res.fail(f"cropsize:does-not-cover-largest-instance:{sub}", desc + f"; the largest instance needs {need:.2f}px")
-    res.nontrivial = need > mcs or (mcs % case["stride"] != 0) or bool(res.failures)
+    elif out < need - 1e-6 * max(1.0, need):
+        res.fail("cropsize:does-not-cover-largest-instance", desc + f"; the largest instance needs {need:.2f}px")
+    res.nontrivial = (not user_set) or bool(res.failures)
     return res
 
 
@@ -1170,7 +1175,7 @@ def strategy_cropsize():
 
     @st.composite
     def case(draw):
-        cls = draw(st.sampled_from(["min=None", "min<need,divisible", "min<need,indivisible", "min>need,divisible", "min>need,indivisible", "min=0"]))
+        cls = draw(st.sampled_from(["min=None", "min=None", "min<need,divisible", "min<need,indivisible", "min<need,indivisible", "min>need,divisible", "min>need,indivisible", "min=0"]))
         stride = draw(st.sampled_from([1, 2, 4, 8, 16, 32]))
         scaling = draw(st.sampled_from([1.0, 1.0, 0.5, 0.75, 1.5, 2.0]))
         padding = draw(st.sampled_from([0, 0, 1, 7, 16]))
